@@ -131,12 +131,12 @@ Example ex_cal_trivial :
   let to_civil := fun t => mkCivil t 1 1 0 0 0 0 1 in
   let of_civil := fun y (_ _ _ _ _ : Z) => y in
   (forall t, let c := to_civil t in of_civil (c_year c) (c_month c) (c_day c) (c_hour c) (c_min c) (c_sec c) = t)
-  /\ forall t, os_time of_civil (os_date_t to_civil t) = t.
+  /\ forall t, os_time of_civil (os_date_t to_civil t) = Some t.
 Proof. split; [reflexivity|]. intros t. now apply time_date_roundtrip_lemma. Qed.
 
 (* ... and the Gregorian calendar of the case evaluator meets it everywhere (Text/CalFacts.v); sample points *)
 Example ex_cal_gregorian :
-  forallb (fun t => os_time unix_of_civil (os_date_t civil_of_unix t) =? t)
+  forallb (fun t => match os_time unix_of_civil (os_date_t civil_of_unix t) with Some t' => t' =? t | None => false end)
           [0; -1; 951782400; 951868799; -1893456000; 1893455999; 68169599; 68169600] = true.
 Proof. vm_compute. reflexivity. Qed.
 
